@@ -260,6 +260,7 @@ pub fn run(run: &mut Run) {
     run.seq("KEY TABLES (single-feature sensitivity)", |ctx| key_tables(ctx));
     let mut sel = Sel::standard(thorough);
     sel.counters = true;
+    sel.clocks = true;
     sel.ray = None;
     run_universes(run, &sel, DISAGREE, &check_pos);
     transpositions(run, 4);
